@@ -329,7 +329,46 @@ def run(ctx):
         "instance_theorem": "c12_shipped : c12_ok shipped = true  [vm_compute]",
         "property_failures_on_implementation": len(prop_bad), "correspondence_disagreements": len(failing),
     }
+    # integers far beyond every range (more decimal digits than CPython converts to text by default): still "everything else",
+    # to be rejected with TypeError by isinstance (False) and by the constructor
+    huge_hits = []
+    for t, _coq_t, name in TYPES:
+        if not hasattr(t, "__low__"):
+            continue
+        for v in (10**4300, -(10**4300), 10**5000, 1 << 20000):
+            try:
+                member = isinstance(v, t)
+            except Exception as e:  # noqa
+                prop_bad_late = {"type": name, "value": f"integer of {v.bit_length()} bits", "what": f"isinstance raised {type(e).__name__}"}
+                viol.append({"kind": "property", "what": "a primitive type does not denote its documented domain", "failing_input_found": True,
+                             "n_failing": 1, "cases": [prop_bad_late]})
+                continue
+            try:
+                t(v)
+                outcome = "accepted"
+            except TypeError:
+                outcome = "TypeError"
+            except ValueError as e:
+                outcome = "ValueError-digits" if "integer string conversion" in str(e) else f"ValueError: {e}"[:80]
+            except Exception as e:  # noqa
+                outcome = f"{type(e).__name__}: {e}"[:80]
+            if member is False and outcome == "TypeError":
+                continue
+            if member is False and outcome == "ValueError-digits":
+                huge_hits.append(f"{name}(integer of {v.bit_length()} bits)")
+                continue
+            viol.append({"kind": "property", "what": "a primitive type does not denote its documented domain", "failing_input_found": True,
+                         "n_failing": 1, "cases": [{"type": name, "value": f"integer of {v.bit_length()} bits", "isinstance": member, "constructor": outcome}]})
     known = []
+    HUGE_ID = "C12-huge-int-constructor-valueerror"
+    if huge_hits:
+        kf = {f["id"]: f for f in common.known_findings()["findings"]}
+        if HUGE_ID in kf:
+            known.append(f"KNOWN-FINDING: property=C12 {kf[HUGE_ID]['what']} ({len(huge_hits)} calls, e.g. {huge_hits[0]})")
+        else:
+            viol.append({"kind": "property", "what": "the constructor of an integer type rejects a non-member with ValueError instead of TypeError",
+                         "failing_input_found": True, "n_failing": len(huge_hits), "cases": huge_hits[:3]})
+    cov["huge_integer_probes"] = {"known_finding_hits": len(huge_hits)}
     KNOWN_ID = "C12-timestamp-beyond-utc-max"
     if known_hits:
         kf = {f["id"]: f for f in common.known_findings()["findings"]}
